@@ -1,6 +1,7 @@
 """schc_util.py -- neutral forms of rules / packet descriptors, serialisation for the model driver,
 rule generators, and the independent reference (RFC 8724 section 7 on plain bit strings)."""
 from core import mk, bits_of, L, R, Buffer, Padding, randbits
+from core import mkmap, given_items
 from microschc.rfc8724 import (FieldDescriptor, PacketDescriptor, RuleFieldDescriptor, RuleDescriptor, MatchMapping,
                                RuleNature, DirectionIndicator as DI, MatchingOperator as MO,
                                CompressionDecompressionAction as CDA)
@@ -55,7 +56,7 @@ def n_rule(rule):
     fds = []
     for rf in (rule.field_descriptors if rule.nature is not RuleNature.NO_COMPRESSION else []):
         if isinstance(rf.target_value, MatchMapping):
-            tv = ('m', [(bits_of(k), bits_of(v)) for k, v in rf.target_value.forward.items()])
+            tv = ('m', [(bits_of(k), bits_of(v)) for k, v in given_items(rf.target_value)])
         else:
             tv = ('b', bits_of(rf.target_value))
         fds.append(dict(fid=fid_of(rf.id), len=rf.length, pos=rf.position, dir=DIRC[DI(rf.direction)],
@@ -90,8 +91,8 @@ def raw_rule_tokens(rule):
         fid = fid_of(rf.id)
         t += [fid[0], str(fid[1]), str(rf.length), str(rf.position), DIRC[DI(rf.direction)], MOC[MO(rf.matching_operator)], CDAC[CDA(rf.compression_decompression_action)]]
         if isinstance(rf.target_value, MatchMapping):
-            t += ['m', str(len(rf.target_value.forward))]
-            for k, v in rf.target_value.forward.items():
+            t += ['m', str(len(given_items(rf.target_value)))]
+            for k, v in given_items(rf.target_value):
                 t += [raw(k), raw(v)]
         else:
             t += ['b', raw(rf.target_value)]
@@ -344,6 +345,10 @@ def gen_rfd(rnd, f, kind, direction=DI.BIDIRECTIONAL, side=None):
         while len(vals) < size and tries < 50:
             tries += 1
             v = randbits(rnd, n)
+            if tries < 3 and rnd.random() < 0.5:
+                # another mapped value that spells the same NUMBER with another length (leading zeros added or stripped):
+                # it is a different bit string, a different key
+                v = rnd.choice(['0' * 8 + fb, '0' * rnd.randint(1, 7) + fb, fb.lstrip('0'), fb[8:] if fb.startswith('0' * 8) else '0' + fb])
             if v not in vals:
                 vals.append(v)
         rnd.shuffle(vals)
@@ -354,7 +359,17 @@ def gen_rfd(rnd, f, kind, direction=DI.BIDIRECTIONAL, side=None):
         elif r_ < 0.3:
             codes = prefix_free_ids(rnd, len(vals), maxlen=6)   # indices of unequal widths (a prefix code)
         fw = {mk(v, sd()): mk(c, sd()) for v, c in zip(vals, codes)}
-        return RuleFieldDescriptor(f.id, n, f.position, direction, MatchMapping(fw), MO.MATCH_MAPPING, CDA.MAPPING_SENT)
+        return RuleFieldDescriptor(f.id, n, f.position, direction, mkmap(fw), MO.MATCH_MAPPING, CDA.MAPPING_SENT)
+    if kind == 'mapset':
+        # a match-mapping used as a set of admissible values: several values share one index (many-to-one; lossy for mapping-sent,
+        # so only the matcher and the compressor are judged on it), paired with value-sent or mapping-sent
+        vals = [fb] + [randbits(rnd, n) for _ in range(rnd.randint(1, 3))]
+        vals = list(dict.fromkeys(vals))
+        rnd.shuffle(vals)
+        code = rnd.choice(['', '0', '10'])
+        fw = {mk(v, sd()): mk(code, sd()) for v in vals}
+        cda = rnd.choice([CDA.VALUE_SENT, CDA.MAPPING_SENT])
+        return RuleFieldDescriptor(f.id, n, f.position, direction, mkmap(fw), MO.MATCH_MAPPING, cda)
     if kind == 'comp':
         return RuleFieldDescriptor(f.id, n, f.position, direction, Buffer(b'', 0), MO.IGNORE, CDA.COMPUTE)
     raise ValueError(kind)
